@@ -212,8 +212,11 @@ def run_scenario(sc):
                 st = {"Type": "Wait", "Seconds": X + sc.get("extra", 5), "End": True}
             else:
                 st = {"Type": "Task", "Resource": W.fn_arn("f"), "End": True}
+                if sc.get("task_timeout"):
+                    st["TimeoutSeconds"] = sc["task_timeout"]
                 if sc.get("handlers"):
-                    st["Retry"] = [{"ErrorEquals": [sc["handlers"]], "IntervalSeconds": 1, "MaxAttempts": 2}]
+                    if not sc.get("catch_only"):
+                        st["Retry"] = [{"ErrorEquals": [sc["handlers"]], "IntervalSeconds": 1, "MaxAttempts": 2}]
                     st["Catch"] = [{"ErrorEquals": [sc["handlers"]], "Next": "H"}]
             states = {"B": st, "H": {"Type": "Pass", "Result": "handled", "End": True}}
             start = "B"
@@ -227,8 +230,17 @@ def run_scenario(sc):
             _, r = w.start_execution(arn_sm, {}, name="e")
             arn = r["executionArn"]
             started = w.clock.now
+            if sc.get("late"):
+                # the start event is delivered only after the execution deadline (and the Task's own, shorter, time-out) have passed
+                w.clock.advance_to(started + X + sc["late"])
             w.run()
             t_end, detail = terminal_time(w, arn)
+            if sc.get("late"):
+                if t_end is None or detail["status"] != "FAILED" or detail.get("error") != "States.Timeout":
+                    fails.append(("execution-timeout-intercepted" if sc.get("handlers") else "execution-timeout-outcome",
+                                  "scenario %s (event handled %s s after the execution deadline): ended %s/%s, expected FAILED/States.Timeout" % (
+                                      json.dumps(sc), sc["late"], detail and detail["status"], detail and detail.get("error"))))
+                return fails
             total = (sc.get("lead") or 0) + (sc["reply_delay"] if blocker == "task" and sc.get("reply_delay") is not None else (X + sc.get("extra", 5) if blocker == "wait" else 1e9))
             if t_end is None:
                 fails.append(("execution-never-completes", "scenario %s" % json.dumps(sc)))
@@ -266,6 +278,9 @@ def run_scenario(sc):
                 fails.append(("dead-timer-fired", "scenario %s: cancelled Wait still produced %d publishes / %d notifications" % (json.dumps(sc), len(late), len(w.notifications) - nn)))
         else:
             raise HarnessError("unknown scenario kind %r" % kind)
+        terms = [n["body"]["detail"]["status"] for n in w.notifications if n["body"]["detail"]["status"] != "RUNNING"]
+        if len(terms) > 1:
+            fails.append(("dead-timer-fired", "scenario %s: a superseded timer still acted: terminal notifications %r" % (json.dumps(sc), terms)))
         if w.broker.protocol_errors:
             fails.append(("protocol-error", repr(w.broker.protocol_errors[:2])))
     finally:
@@ -292,13 +307,16 @@ def engine_shard(k, seed, tier, examples=40):
                                   "catch": st.sampled_from([None, None, "States.Timeout", "States.ALL", "Other"]),
                                   "retry": st.sampled_from([None, None, "States.Timeout", "Other"])}).map(_near_deadline)
     xt = st.fixed_dictionaries({"kind": st.just("execution-timeout"), "tz": tz, "timeout": st.integers(2, 6), "blocker": st.sampled_from(["wait", "task"]),
-                                "reply_delay": st.one_of(st.none(), st.sampled_from([1, 3, 8])), "handlers": st.sampled_from([None, "States.ALL", "States.Timeout"]),
+                                "reply_delay": st.one_of(st.none(), st.sampled_from([1, 3, 8])), "handlers": st.sampled_from([None, "States.ALL", "States.Timeout"]), "catch_only": st.booleans(),
                                 "lead": st.sampled_from([0, 0, 1]), "extra": st.sampled_from([1, 5])})
+    xt_late = st.fixed_dictionaries({"kind": st.just("execution-timeout"), "tz": tz, "timeout": st.integers(3, 6), "blocker": st.just("task"), "reply_delay": st.none(),
+                                     "handlers": st.sampled_from(["States.ALL", "States.Timeout"]), "lead": st.just(0), "task_timeout": st.integers(1, 2),
+                                     "late": st.sampled_from([0.5, 2]), "catch_only": st.booleans()})
     cw = st.fixed_dictionaries({"kind": st.just("cancelled-wait"), "tz": tz, "seconds": st.integers(3, 9), "fail_after": st.sampled_from([0, 0.5, 2])})
 
     @hypothesis.seed(seed)
     @settings(max_examples=examples, deadline=None, database=None, suppress_health_check=list(HealthCheck), phases=[Phase.generate])
-    @given(st.one_of(wait, wait, wait_crash, task, task, xt, cw))
+    @given(st.one_of(wait, wait, wait_crash, task, task, xt, xt_late, cw))
     def run(sc):
         try:
             fails = run_scenario(sc)
